@@ -3,6 +3,8 @@ package verifsim
 import (
 	"fmt"
 	"time"
+
+	"github.com/superfly/litefs"
 )
 
 func init() {
@@ -12,7 +14,7 @@ func init() {
 		Rule:  "seeded multi-node simulations: 2-4 real Stores with real FUSE handler trees and real HTTP handlers, wired by SimNet (scheduler-gated byte delivery, resets, partitions, back-pressure) and SimLease (TTL sessions), PagerSim writers on whichever node is primary (rollback modes and WAL, page sizes 512..65536, grow/shrink across checksum blocks, LZ4 on/off, 1-2 databases), PagerSim readers on every node reading position and every page through the simulated page cache under proper SQLite read locks; a seeded scheduler decides every interleaving of OS calls, invalidations, lock transitions, stream reads/writes and application file operations; faults: stream reset at any byte, partition, node crash at any yield point + restart on the durable image, demotion, lease expiry, cache eviction, retention trimming. Safety at every reader step (image = image committed at the reported position; -pos file agrees with DB.Pos), liveness after heal (all replicas at the primary's position within 120 s simulated), end-state audit incl. from-scratch checksum. evaluations = runs; distinct = distinct (nodes, mode, page size class, faults fired set, role-change count) tuples plus distinct interleaving hashes reported separately; non-trivial = run with >= 3 commits and >= 1 replica read check",
 		Run:   runC01,
 		NonTrivial: func(r *Run) bool {
-			return r.Stats["writer.tx.commit"] >= 3 && r.Stats["reader.checked.replica"] >= 1
+			return (r.Stats["writer.tx.commit"] >= 3 && r.Stats["reader.checked.replica"] >= 1) || r.Stats["c01.half-open.followed"] > 0
 		},
 		Assumptions: []string{
 			"SimKernel page-cache contract (explicit invalidation only, OpenKeepCache) and PagerSim fidelity (DESIGN §4)",
@@ -25,8 +27,83 @@ func init() {
 	})
 }
 
+// c01HalfOpen: a replica's stream goes away on the replica's side only (its
+// reads fail; nothing tells the primary, whose handler lives on until its next
+// write - a heartbeat after a second, or the next transaction - fails). The
+// replica reconnects after its reconnect delay, before or after the primary
+// has noticed. Whatever the order, the replica has to follow the primary's
+// next commits within bounded time.
+func c01HalfOpen(r *Run) {
+	t := r.Tape
+	pr := newPair(r, t.Chance(1, 2), 0)
+	reconnect := []time.Duration{20 * time.Millisecond, 300 * time.Millisecond, 1200 * time.Millisecond}[t.Next(3)]
+	pr.rep.Cfg.Tune = func(s *litefs.Store) { s.ReconnectDelay = reconnect }
+	r.Cfg["scenario"], r.Cfg["reconnect"] = "half-open", reconnect.String()
+	if !pr.open() {
+		return
+	}
+	h := &hist{r: r, n: pr.p, name: "db"}
+	h.pageSize = []uint32{512, 4096}[t.Next(2)]
+	h.jmode = []string{ModeDelete, ModeTruncate, ModePersist}[t.Next(3)]
+	h.maxPages = 10
+	if !h.openConns(1) {
+		return
+	}
+	for i := 0; i < 3 && h.ref.N() == 0; i++ {
+		h.commit(t)
+	}
+	if r.Failed() || h.ref.N() == 0 {
+		return
+	}
+	if t.Chance(1, 3) && !h.toWAL() {
+		return
+	}
+	if !r.Check(pr.waitReplica(h.name, 20*time.Second), "c01.setup", "the replica did not follow") {
+		return
+	}
+	for round, n := 0, t.Range(1, 3); round < n && !r.Failed(); round++ {
+		var stream *simConn
+		for _, c := range pr.net.LiveConns() {
+			if c.path == "/stream" && c.from == pr.rep.ID {
+				stream = c
+			}
+		}
+		if stream == nil {
+			time.Sleep(reconnect + 100*time.Millisecond)
+			continue
+		}
+		stream.resetClientSide("fault")
+		r.Count("fault.conn_half_reset")
+		// commits arrive before the reconnect, between the reconnect and the
+		// primary's heartbeat, or after everything has settled
+		wait := []time.Duration{0, reconnect / 2, reconnect + 50*time.Millisecond, reconnect + 1500*time.Millisecond, 3 * time.Second}[t.Next(5)]
+		time.Sleep(wait)
+		for k, nc := 0, t.Range(1, 3); k < nc && !r.Failed(); k++ {
+			h.commit(t)
+			if t.Chance(1, 2) {
+				time.Sleep(time.Duration(t.Range(1, 1500)) * time.Millisecond)
+			}
+		}
+		if r.Failed() {
+			return
+		}
+		want := h.db().Pos()
+		if !waitPos(pr.rep, h.name, want, 30*time.Second) {
+			r.Failf("c01.liveness", "the replica's stream was cut on its side only (the primary noticed at its next write), it reconnected after %v, the primary committed %v after the cut; 30 s (simulated) later the replica is at %s, the primary at %s", reconnect, wait, posOf(pr.rep, h.name), want)
+			return
+		}
+		r.Count("c01.half-open.followed")
+	}
+	h.closeConns()
+	r.State("half-open/%s/%v", reconnect, h.wal)
+}
+
 func runC01(r *Run) {
 	t := r.Tape
+	if t.Chance(1, 10) {
+		c01HalfOpen(r)
+		return
+	}
 	nNodes := 2 + t.Pick([]int{5, 4, 1})
 	cs := newClusterSim(r, nNodes, "c01")
 	cs.wantTx = t.Range(4, 14)
@@ -110,6 +187,24 @@ func runC01(r *Run) {
 		// one more fair settle so that what the last transaction committed is replicated
 		if ok, why := cs.settle(120 * time.Second); !ok && why != "no primary" && !r.Failed() {
 			r.Failf("c01.liveness", "120 s (simulated) after the workload stopped the cluster has not converged: %s", why)
+		}
+		// ... and what is committed from now on is replicated too: one more
+		// transaction on the primary, after every fault has stopped and every
+		// stream has had time to settle, has to reach every replica (a stream
+		// that is connected and exchanges heartbeats but no longer carries
+		// transactions would show here and nowhere else)
+		if p := cs.cl.Primary(); p != nil && !r.Failed() {
+			pt := t.Fork()
+			before := cs.commits
+			cs.goActor("probe-writer", func() { cs.writeOnce(p, cs.dbs[0], pt) })
+			if cs.quiesce() && !r.Failed() {
+				if cs.commits > before {
+					r.Count("c01.final-probe-commit")
+				}
+				if ok, why := cs.settle(120 * time.Second); !ok && why != "no primary" && !r.Failed() {
+					r.Failf("c01.liveness", "a transaction committed on the primary after all faults had stopped and the cluster had converged was not replicated within 120 s (simulated): %s", why)
+				}
+			}
 		}
 		if !r.Failed() {
 			cs.audit()
